@@ -472,6 +472,9 @@ def enclosing_fn(lines, i):
                     im = IMPL_RE.match(lj)
                     if im:
                         return f"{im.group(1).split('::')[-1]}::{name}"
+                    tm = re.match(r"^\s*(?:pub(?:\([a-z]+\))? )?trait (\w+)", lj)
+                    if tm:
+                        return f"{tm.group(1)}#decl::{name}"
                     mm = MOD_RE.match(lj)
                     if mm:
                         return f"{mm.group(1)}::{name}"
